@@ -29,8 +29,13 @@ def run(ctx):
     g = cfg_of(md.node)
     # ---- R1 exact < partials < '*' ---------------------------------------------------
     app = []
+    from sa.util import returned_name
+    M = returned_name(md, "matches")            # the match list, by what it is: the function's result
+    # the partial-descriptor list: the one that is extended into the result
+    PL = next((norm(x.args[0]) for x in own_nodes(md.node) if isinstance(x, ast.Call) and isinstance(x.func, ast.Attribute) and x.func.attr == "extend"
+               and dotted(x.func.value) == M and x.args and isinstance(x.args[0], ast.Name)), "partials")
     for x in own_nodes(md.node):
-        if isinstance(x, ast.Call) and isinstance(x.func, ast.Attribute) and x.func.attr in ("append", "extend") and dotted(x.func.value) == "matches":
+        if isinstance(x, ast.Call) and isinstance(x.func, ast.Attribute) and x.func.attr in ("append", "extend") and dotted(x.func.value) == M:
             kind = "exact" if x.func.attr == "append" and norm(x.args[0]) == md.params[1] else \
                 ("wild" if const_str(x.args[0]) == "*" else ("partials" if x.func.attr == "extend" else "other"))
             app.append((kind, x))
@@ -48,13 +53,13 @@ def run(ctx):
                             order_ok = False
                             why = f"'{k2}' can be appended before '{k1}'"
     c.ob("R1", order_ok and set(rank) <= set(kinds), md, "specificity-order", why if order_ok else f"descriptor specificity order broken: {why}", md.node)
-    sorts = [x for x in own_nodes(md.node) if isinstance(x, ast.Call) and isinstance(x.func, ast.Attribute) and x.func.attr == "sort" and dotted(x.func.value) == "partials"]
+    sorts = [x for x in own_nodes(md.node) if isinstance(x, ast.Call) and isinstance(x.func, ast.Attribute) and x.func.attr == "sort" and dotted(x.func.value) == PL]
     ok = False
     for s in sorts:
         key = next((k.value for k in s.keywords if k.arg == "key"), None)
         rev = next((k.value for k in s.keywords if k.arg == "reverse"), None)
         desc = (key is not None and norm(key) == "len" and isinstance(rev, ast.Constant) and rev.value is True) or \
-               (isinstance(key, ast.Lambda) and norm(key.body).replace(" ", "") in ("-len(k)", "-len(x)", "-len(key)", "-len(p)"))
+               (isinstance(key, ast.Lambda) and len(key.args.args) == 1 and norm(key.body).replace(" ", "") == f"-len({key.args.args[0].arg})")
         ext = [x for k, x in app if k == "partials"]
         before = all(g.can_reach(a, b, follow_exc=False) for a in cfg_node_of(md, s) for e in ext for b in cfg_node_of(md, e))
         ok = ok or (desc and before)
@@ -62,7 +67,7 @@ def run(ctx):
          "partial descriptors are not sorted longest-prefix-first before they are appended: 'a.*' could shadow 'a.b.*'", md.node)
     # only keys of the form 'p.*' are partial descriptors (an exact key must never be read as the prefix 'p' + two characters)
     from sa.util import canon_atom
-    pstores = [x for x in own_nodes(md.node) if isinstance(x, ast.Call) and isinstance(x.func, ast.Attribute) and x.func.attr == "append" and dotted(x.func.value) == "partials"]
+    pstores = [x for x in own_nodes(md.node) if isinstance(x, ast.Call) and isinstance(x.func, ast.Attribute) and x.func.attr == "append" and dotted(x.func.value) == PL]
     for x in pstores:
         at = [canon_atom(a, pol) for a, pol in guards_at(md, x) if not isinstance(a, ast.BoolOp)]
         okp = any(t[0] == "truthy" and t[1].endswith(".endswith('.*')") and t[3] is True for t in at)
